@@ -17,8 +17,8 @@
                                           setPath                            -> [unescape] ... [reparse]
 
    A certificate URI is the part of a Go [url.URL] that the code reads: Scheme, Host, Path,
-   RawPath, and one bit saying that nothing else is set (no userinfo, opaque part, query,
-   fragment, omit-host flag).  The ACL authorizer is an arbitrary function.  X.509 encoding,
+   RawPath, and a three-valued mark for what else is set (nothing; userinfo / query / fragment;
+   only an opaque part or the omit-host flag).  The ACL authorizer is an arbitrary function.  X.509 encoding,
    signatures and chain validation are not modelled.  No proofs in this file. *)
 From Verif Require Import Base.Prelude.
 Open Scope string_scope.
@@ -142,12 +142,20 @@ Fixpoint valid_encoded (s : string) : bool :=
   | String c r => valid_enc_char c && valid_encoded r
   end.
 
+(* what else a URL carries besides scheme, host and path *)
+Inductive deco :=
+| DNone      (* nothing *)
+| DUser      (* userinfo, a query (or a bare "?") or a fragment: what 3ebfd83 refuses *)
+| DForm.     (* only an opaque part or the omit-host form "scheme:/path" *)
+
+Definition is_duser (d : deco) : bool := match d with DUser => true | _ => false end.
+
 Record url := Url {
   u_scheme : string;
   u_host : string;
   u_path : string;      (* Path: decoded *)
   u_raw : string;       (* RawPath: "" unless the original spelling differs from the default encoding *)
-  u_plain : bool        (* no userinfo / opaque / query / fragment / omit-host *)
+  u_deco : deco
 }.
 
 (* URL.EscapedPath *)
@@ -170,7 +178,7 @@ Definition set_path (p : string) : option (string * string) :=
    goes through EscapedPath and setPath. *)
 Definition reparse (u : url) : url :=
   match set_path (escaped_path u) with
-  | Some (p, r) => Url (u_scheme u) (u_host u) p r (u_plain u)
+  | Some (p, r) => Url (u_scheme u) (u_host u) p r (u_deco u)
   | None => u
   end.
 
@@ -284,7 +292,7 @@ Definition parse_cert_uri (u : url) : res perr cert_id :=
 
 (* URI() of each identity type (community edition: no namespaces; partitions only printed for
    services, lower-cased; agents and gateways print no partition). *)
-Definition fresh_url (host path : string) : url := Url "spiffe" host path EmptyString true.
+Definition fresh_url (host path : string) : url := Url "spiffe" host path EmptyString DNone.
 
 Definition service_ap (ap : string) : string := if (ap =? "")%string then "default" else lower ap.
 
@@ -324,6 +332,7 @@ Inductive serr :=
 | EDenied            (* acl.PermissionDenied *)
 | EDatacenter        (* "SPIFFE ID in CSR from a different datacenter" *)
 | ETrustDomain       (* "SPIFFE ID in CSR from a different trust domain" *)
+| EDecorated         (* "SPIFFE ID in CSR must not have userinfo, a query or a fragment" *)
 | ENotAgent          (* auto-config: "SPIFFE ID is not an Agent ID" *)
 | EWrongNode.        (* auto-config: "... is not for the correct node" *)
 
@@ -367,6 +376,7 @@ Definition authorize (e : ca_env) (az : authz) (c : csr) : res serr cert_id :=
   match csr_uris c with
   | [u] =>
       if negb (csr_emails c =? 0) then Err EEmail else
+      if is_duser (u_deco u) then Err EDecorated else
       match parse_cert_uri u with
       | Err pe => Err (EParse pe)
       | Ok id =>
@@ -601,16 +611,18 @@ Definition sign_request (e : ca_env) (az : authz) (c : csr) (s : store) : res se
 (* The second entry point: AutoConfig.InitialConfiguration.  parseAutoConfigCSR (one URI, no
    e-mail, the URI parses, it is an agent identity), jwtAuthorizer.Authorize (the agent name is the
    node the JWT was validated for; partitions are all equal in the community edition), then
-   CAManager.SignCertificate directly - no ACL question, no supported-scope test and no datacenter
-   test on this path. *)
+   the datacenter test of InitialConfiguration (bf079b3), then CAManager.SignCertificate directly -
+   no ACL question and no supported-scope test on this path. *)
 Definition autoconfig_sign (e : ca_env) (node : string) (c : csr) (s : store) : res serr (cert * store) :=
   match csr_uris c with
   | [u] =>
       if negb (csr_emails c =? 0) then Err EEmail else
+      if is_duser (u_deco u) then Err EDecorated else
       match parse_cert_uri u with
       | Err pe => Err (EParse pe)
       | Ok (IdAgent host ap dc agent) =>
           if negb (agent =? node)%string then Err EWrongNode else
+          if negb (dc =? e_dc e)%string then Err EDatacenter else
           match sign_uris e (csr_uris c) (IdAgent host ap dc agent) with
           | Err x => Err x
           | Ok uris => Ok (provider_sign s uris c)
